@@ -26,6 +26,7 @@ func runC07(c *Ctx, r *Run) {
 	r.Rule("OB-Q4", "every message is queued under its own RoundNumber and From (both handlers)")
 	r.Rule("OB-Q3", "broadcast before p2p per sender: p2p verification waits for the sender's broadcast; the broadcast handler then drains the queued p2p message")
 	r.Rule("OB-Q5", "filter first: every effect of Accept is dominated by the passing edge of canAccept")
+	r.Rule("OB-Q6", "queue entries are deleted only for rounds that are over, never for the round just entered")
 	r.Rule("DET-1", "no hash/transcript write inside an iteration over a Go map")
 	r.Rule("RG-1", "content RoundNumber() equals the consuming round's Number()")
 	r.Rule("RG-2", "FinalRoundNumber admits every reachable round")
@@ -231,6 +232,68 @@ func runC07(c *Ctx, r *Run) {
 				"runs only for a message that passed canAccept",
 				what+" is reachable in Accept for a message that did not pass canAccept (another session, another protocol, an unknown sender, a round outside the window): a foreign message changes this session's outcome")
 		})
+	}
+
+	// ---- OB-Q6 a queued message is removed from the queues only for a round that is over: a delete keyed by the number
+	// of the round that was JUST ENTERED (the round field was assigned before the key was computed) throws away a message
+	// that arrived early for that round
+	{
+		nDel := 0
+		for _, hn := range []string{"MultiHandler", "TwoPartyHandler"} {
+			Hn := c.LookupNamed("pkg/protocol", hn)
+			if Hn == nil {
+				continue
+			}
+			for _, fn := range funcsOfPkg(c, c.SSA[Hn.Obj().Pkg()]) {
+				if fn.Signature.Recv() == nil || namedOf(derefType(fn.Signature.Recv().Type())) != Hn {
+					continue
+				}
+				fn := fn
+				allInstrs(fn, func(in ssa.Instruction) {
+					call, ok := in.(*ssa.Call)
+					if !ok {
+						return
+					}
+					bi, ok := call.Call.Value.(*ssa.Builtin)
+					if !ok || bi.Name() != "delete" || len(call.Call.Args) != 2 {
+						return
+					}
+					q := paramFields(fn, call.Call.Args[0])
+					if !(containsField(q, "recv.messages") || containsField(q, "recv.broadcast")) {
+						return
+					}
+					nDel++
+					// the key: Number() of a load of the round field that is preceded by a store to that field
+					bad := ""
+					dependsOn(call.Call.Args[1], func(v ssa.Value) bool {
+						nc, ok := v.(*ssa.Call)
+						if !ok || !nc.Call.IsInvoke() || nc.Call.Method.Name() != "Number" {
+							return false
+						}
+						ld, ok := nc.Call.Value.(*ssa.UnOp)
+						if !ok {
+							return false
+						}
+						fa, ok := ld.X.(*ssa.FieldAddr)
+						if !ok {
+							return false
+						}
+						allInstrs(fn, func(in2 ssa.Instruction) {
+							if st, isSt := in2.(*ssa.Store); isSt {
+								if fa2, isFA := st.Addr.(*ssa.FieldAddr); isFA && fa2.Field == fa.Field && fa2.X == fa.X && instrDominatesLoose(st, ld) {
+									bad = c.Pos(st.Pos())
+								}
+							}
+						})
+						return false
+					})
+					r.Check("OB-Q6", fmt.Sprintf("%s|delete from queue", c.FuncName(fn)), c.Pos(call.Pos()), bad == "",
+						"the deleted entry belongs to a round that is over",
+						"the entry deleted from the queue is keyed by the number of the round entered at "+bad+" (the round field was assigned before the key was read): a message that arrived early for the new round is thrown away and the session waits for it forever")
+				})
+			}
+		}
+		r.Hold("OB-Q6", "queue deletes|examined", "", fmt.Sprintf("%d deletes from the message queues examined", nDel))
 	}
 
 	// ---- DET-1
